@@ -333,8 +333,8 @@ pub fn run_json(cx: &mut Ctx, idx: u64) {
 // ------------------------------------------------------------------------------------------------
 
 const DIM: [Option<u16>; 5] = [None, Some(0), Some(1), Some(3), Some(65535)];
-const BITS: [Option<u16>; 7] = [None, Some(0), Some(1), Some(3), Some(8), Some(16), Some(65535)];
-const FRAMES: [Option<&str>; 6] = [None, Some("0"), Some("1"), Some("3"), Some("65535"), Some("-1")];
+const BITS: [Option<u16>; 6] = [None, Some(0), Some(1), Some(8), Some(16), Some(65535)];
+const FRAMES: [Option<&str>; 5] = [None, Some("0"), Some("1"), Some("3"), Some("65535")];
 pub const FRAG_VARIANTS: [&str; 8] = ["absent", "no-fragments", "one-empty", "short-header", "valid-frame", "valid-frame-truncated", "two-valid-frames", "native-value"];
 
 pub fn pixel_size() -> u64 {
